@@ -574,6 +574,52 @@ pub fn eval_c13(case: &Case) -> Outcome {
     o
 }
 
+/// C15 on the schedule engine: the allocation balance of a whole concurrent case (generated schedule) is zero.
+pub fn eval_c15(case: &Case) -> Outcome {
+    // warm-up outside the gate: coroutine stack pool, ledger, thread-local environment
+    let w = run_sched(case);
+    let undecided_case = undecided(&w);
+    let classes = sched_classes(&w);
+    let (pos, skipped) = crate::props::cursor(&w);
+    let undelivered = skipped || pos < w.info.len as u128;
+    let switches = w.sched.switches;
+    let panicked = oracle::unexpected_panic(&w);
+    drop(w);
+    let mut balances = vec![];
+    if !undecided_case && panicked.is_none() {
+        for _ in 0..2 {
+            let (_, bytes, blocks) = crate::alloc::gated(|| {
+                let h = run_sched(case);
+                drop(h);
+            });
+            balances.push((bytes, blocks));
+        }
+    }
+    let verdict = if let Some(m) = panicked {
+        Err(Violation { what: "panic", detail: m })
+    } else if balances.iter().any(|b| *b != (0, 0)) {
+        Err(Violation {
+            what: if balances.iter().any(|b| b.0 > 0 || b.1 > 0) { "leak" } else { "negative-balance" },
+            detail: format!(
+                "after concurrent use under this schedule and after everything was dropped, the allocation balance of the case is {} bytes in {} blocks (first run) and {} bytes in {} blocks (repetition); expected 0/0",
+                balances[0].0, balances[0].1, balances[1].0, balances[1].1
+            ),
+        })
+    } else {
+        Ok(())
+    };
+    Outcome {
+        verdict,
+        sig_ctx: crate::oracle::kind_class(case.kind).to_string(),
+        nontrivial: case.threads.len() >= 2 && switches >= 1 && undelivered,
+        classes,
+        inconclusive: undecided_case,
+        evals: 3,
+        dfs: None,
+        witness: None,
+    }
+}
+
 pub fn eval_c11_seq(case: &Case) -> Outcome {
     judge_c11_quiescent(&run_seq(case))
 }
@@ -901,6 +947,12 @@ pub fn check(ctx: &mut Ctx) -> Option<Meta> {
                 Plan { name: "sched-lockstep", cfg: { let mut c = GenCfg::base(crate::props::ADAPTORS); c.kinds.extend_from_slice(&[Kind::ClonedIterRef, Kind::CopiedIterRef, Kind::ClonedIterRef, Kind::CopiedIterRef]); c.max_len = if t { 16 } else { 8 }; c.min_threads = 2; c.max_threads = 4; c.max_ops = 4; c.w_skip = 3; c.w_len = 1; c.w_has = 1; c.terminal_mode = 2; c.pre_pulls = true; c.sched_len = if t { 300 } else { 160 }; c }, eval: eval_c13, quick: 30_000, thorough_factor: 25 },
             ],
         ),
+        "C15" => (
+            "E1 part: consuming kinds with heap-owning element layouts used concurrently under generated schedules (pulls, partial chunks, buffered pulls, skips, drop or into_seq_iter); the whole case runs twice inside the gated counting allocator; oracle: allocation balance exactly zero; non-trivial = >=2 threads, >=1 context switch and an undelivered part".into(),
+            vec![
+                Plan { name: "sched-alloc-balance", cfg: { let mut c = GenCfg::base(crate::props::CONSUMING); c.layouts = vec![Layout::Boxed, Layout::Str, Layout::Tracked]; c.max_len = if t { 16 } else { 8 }; c.min_threads = 2; c.max_threads = 4; c.max_ops = 4; c.w_skip = 2; c.terminal_mode = 2; c.extra_cap = true; c.sched_len = if t { 300 } else { 120 }; c }, eval: eval_c15, quick: 10_000, thorough_factor: 25 },
+            ],
+        ),
         "C10" => (
             "E1 part: all kinds used concurrently under generated schedules (incl. skips), joined, then into_seq_iter; same remainder oracle as the sequential part; non-trivial = >=2 threads, >=1 context switch, >=1 delivery before the conversion".into(),
             vec![
@@ -978,6 +1030,7 @@ pub fn eval_for(prop: &str, engine: &str) -> Option<fn(&Case) -> Outcome> {
         ("C08", false) => eval_c08,
         ("C10", false) => eval_c10,
         ("C13", false) => eval_c13,
+        ("C15", false) => eval_c15,
         ("C09", _) => eval_c09,
         ("C11", false) => eval_c11,
         ("C11", true) => eval_c11_seq,
